@@ -294,3 +294,98 @@ func onlyNilGuards(p *Prog, b *ssa.BasicBlock, src string) bool {
 
 // pbGetterRe matches the description of a generated getter call, e.g. pb.FactV2.GetPredicate(input).
 var pbGetterRe = regexp.MustCompile(`^pb\.\w+\.Get(\w+)\((.+)\)$`)
+
+// deferredFuncCloses: the function deferred by d (a function literal or a helper of the repository)
+// closes channel mk in its entry block, i.e. before anything else it does and on every path.
+func deferredFuncCloses(d *ssa.Defer, mk *ssa.MakeChan) bool {
+	var callee *ssa.Function
+	var bindings []ssa.Value
+	switch v := d.Call.Value.(type) {
+	case *ssa.MakeClosure:
+		callee, _ = v.Fn.(*ssa.Function)
+		bindings = v.Bindings
+	case *ssa.Function:
+		callee = v
+	}
+	if callee == nil || len(callee.Blocks) == 0 {
+		return false
+	}
+	// does value x inside callee denote mk?
+	denotes := func(x ssa.Value) bool {
+		x = unwrap(x)
+		// parameter bound to mk at the defer site
+		if pr, ok := x.(*ssa.Parameter); ok {
+			for i, q := range callee.Params {
+				if q == pr && i < len(d.Call.Args) && unwrap(d.Call.Args[i]) == ssa.Value(mk) {
+					return true
+				}
+			}
+			return false
+		}
+		// captured variable: *freevar, where the captured cell holds mk
+		if u, ok := x.(*ssa.UnOp); ok && u.Op == token.MUL {
+			if fv, isFV := u.X.(*ssa.FreeVar); isFV {
+				for i, q := range callee.FreeVars {
+					if q != fv || i >= len(bindings) {
+						continue
+					}
+					if cell, isA := bindings[i].(*ssa.Alloc); isA {
+						sts := storesInto(cell)
+						if len(sts) == 1 && unwrap(sts[0].Val) == ssa.Value(mk) {
+							return true
+						}
+					}
+				}
+			}
+		}
+		return false
+	}
+	for _, in := range callee.Blocks[0].Instrs {
+		c, ok := in.(*ssa.Call)
+		if !ok {
+			if _, isSel := in.(*ssa.Select); isSel {
+				return false
+			}
+			continue
+		}
+		if bi, isB := c.Call.Value.(*ssa.Builtin); isB && bi.Name() == "close" && len(c.Call.Args) == 1 && denotes(c.Call.Args[0]) {
+			return true
+		}
+		// any other call before the close might block
+		if _, isB := c.Call.Value.(*ssa.Builtin); !isB {
+			return false
+		}
+	}
+	return false
+}
+
+// deadlineObserved: block blk is reached only after the context's deadline was seen:
+// through the Done() case of a select, or under ctx.Err() != nil.
+func deadlineObserved(p *Prog, blk *ssa.BasicBlock) bool {
+	isCtxCall := func(v ssa.Value, method string) bool {
+		c, ok := unwrap(v).(*ssa.Call)
+		return ok && c.Call.IsInvoke() && c.Call.Method.Name() == method && isNamed(c.Call.Value.Type(), "context", "Context")
+	}
+	for _, g := range guardsOf(blk) {
+		bo, ok := g.cond.(*ssa.BinOp)
+		if !ok {
+			continue
+		}
+		// select case index
+		if ex, isE := bo.X.(*ssa.Extract); isE && ex.Index == 0 && bo.Op == token.EQL && g.val {
+			if sel, isS := ex.Tuple.(*ssa.Select); isS {
+				if k, isK := constInt(bo.Y); isK && int(k) >= 0 && int(k) < len(sel.States) {
+					st := sel.States[k]
+					if st.Dir == types.RecvOnly && isCtxCall(st.Chan, "Done") {
+						return true
+					}
+				}
+			}
+		}
+		// ctx.Err() != nil
+		if isNilConst(bo.Y) && isCtxCall(bo.X, "Err") && ((bo.Op == token.NEQ && g.val) || (bo.Op == token.EQL && !g.val)) {
+			return true
+		}
+	}
+	return false
+}
